@@ -127,7 +127,7 @@ fn spawn_worker() -> Worker {
     Worker { child, stdin, rx }
 }
 static WORKER: Mutex<Option<Worker>> = Mutex::new(None);
-const TIME_LIMIT: Duration = Duration::from_secs(4);
+const TIME_LIMIT: Duration = Duration::from_secs(20);
 
 fn run_in_worker(c: &Case) -> Vec<i128> {
     let mut g = WORKER.lock().unwrap();
